@@ -3,7 +3,7 @@
 //! observed and used by the following operations.
 
 use crate::util::*;
-use easy_ml::matrices::slices::{Slice, Slice2D};
+use easy_ml::matrices::slices::{self, Slice, Slice2D};
 use easy_ml::matrices::Matrix;
 
 // ---------------------------------------------------------------------------------------------
@@ -49,15 +49,19 @@ impl Sl {
         (0..n).filter(|i| self.accepts(*i)).count()
     }
     fn build(&self) -> Slice {
+        // both the enum constructors and the builder methods `not` / `and` / `or`
+        let alt = self.show().len() % 2 == 0;
         match self {
             Sl::All => Slice::All(),
             Sl::None => Slice::None(),
             Sl::Single(i) => Slice::Single(*i),
             Sl::Range(a, b) => Slice::Range(*a..*b),
-            // both the enum constructors and the builder methods
-            Sl::Not(s) => s.build().not(),
+            Sl::Not(s) if alt => s.build().not(),
+            Sl::Not(s) => Slice::Not(Box::new(s.build())),
+            Sl::And(a, b) if alt => a.build().and(b.build()),
             Sl::And(a, b) => Slice::And(Box::new(a.build()), Box::new(b.build())),
-            Sl::Or(a, b) => a.build().or(b.build()),
+            Sl::Or(a, b) if alt => a.build().or(b.build()),
+            Sl::Or(a, b) => Slice::Or(Box::new(a.build()), Box::new(b.build())),
         }
     }
 }
@@ -124,6 +128,8 @@ enum GOp {
     Set(usize, usize, u64, bool), // true: via get_reference_mut
     MapMut(u64),
     MapMutWithIndex(u64),
+    Map(u64),
+    MapWithIndex(u64),
 }
 
 fn show_vals(v: &[u64]) -> String {
@@ -156,6 +162,8 @@ impl GOp {
             }
             GOp::MapMut(k) => format!("map_mut {}", k),
             GOp::MapMutWithIndex(k) => format!("map_mut_with_index {}", k),
+            GOp::Map(k) => format!("map {}", k),
+            GOp::MapWithIndex(k) => format!("map_with_index {}", k),
         }
     }
     fn name(&self) -> &'static str {
@@ -173,6 +181,8 @@ impl GOp {
             GOp::Set(..) => "set",
             GOp::MapMut(..) => "map_mut",
             GOp::MapMutWithIndex(..) => "map_mut_with_index",
+            GOp::Map(..) => "map",
+            GOp::MapWithIndex(..) => "map_with_index",
         }
     }
     /// does the documented precondition hold at this size?
@@ -186,6 +196,7 @@ impl GOp {
             GOp::RemoveColumn(p) => s.c > 1 && *p < s.c,
             GOp::Retain(_, r, c) => r.count(s.r) > 0 && c.count(s.c) > 0,
             GOp::Transpose | GOp::TransposeMut | GOp::MapMut(_) | GOp::MapMutWithIndex(_) => true,
+            GOp::Map(_) | GOp::MapWithIndex(_) => true,
             GOp::Set(r, c, _, _) => *r < s.r && *c < s.c,
         }
     }
@@ -306,18 +317,59 @@ fn alphabet(s: Size, counter: &mut u64) -> Vec<GOp> {
     ops.push(GOp::Set(0, s.c, fresh(counter, 1)[0], false));
     ops.push(GOp::MapMut(1000));
     ops.push(GOp::MapMutWithIndex(100));
+    ops.push(GOp::Map(2000));
+    ops.push(GOp::MapWithIndex(300));
     ops
 }
 
 const NEW_VIAS: [&str; 3] = ["from", "flat", "from_fn"];
 
+fn seq(n: usize) -> String {
+    (1..=n).map(|x| x.to_string()).collect::<Vec<_>>().join(",")
+}
+
+/// Every way to construct an `r`x`c` matrix (r, c >= 1) through a public constructor.  The first
+/// three give the elements 1..=r*c (all distinguishable); `empty`, `diagonal` and
+/// `from_diagonal` necessarily repeat elements.
+fn start_lines(r: usize, c: usize) -> Vec<(String, &'static str)> {
+    let mut v = vec![
+        (format!("@ new {}x{} via=from", r, c), "from"),
+        (format!("@ new {}x{} via=flat", r, c), "from_flat_row_major"),
+        (format!("@ new {}x{} via=from_fn", r, c), "from_fn"),
+    ];
+    if r == 1 {
+        v.push((format!("@ row {}", seq(c)), "row"));
+    }
+    if c == 1 {
+        v.push((format!("@ column {}", seq(r)), "column"));
+    }
+    if r == 1 && c == 1 {
+        v.push(("@ scalar 1 via=from_scalar".to_string(), "from_scalar"));
+        v.push(("@ scalar 1 via=unit".to_string(), "unit"));
+    }
+    v.push((format!("@ empty {} {} 5", r, c), "empty"));
+    if r == c {
+        v.push((format!("@ diagonal {} {} 7", r, c), "diagonal"));
+        v.push((format!("@ from_diagonal {}", seq(r)), "from_diagonal"));
+    }
+    v
+}
+
+/// the `k`-th applicable constructor (rotating), counted in the input distribution
+fn start_line(g: &mut Gen, r: usize, c: usize, k: usize) -> String {
+    let v = start_lines(r, c);
+    let (line, name) = &v[k % v.len()];
+    g.count(&format!("start.constructor.{}", name));
+    line.clone()
+}
+
 fn gen_exhaustive(g: &mut Gen) {
     // all sequences of length <= 3: the first two operations are ordinary lines of a case, the
     // last one ranges over the whole alphabet as `try` lines (operation on a clone)
     let mut via = 0;
-    let mut new_line = |r: usize, c: usize| {
+    let mut new_line = |g: &mut Gen, r: usize, c: usize| {
         via += 1;
-        format!("@ new {}x{} via={}", r, c, NEW_VIAS[via % 3])
+        start_line(g, r, c, via)
     };
     let mut prefixes2: Vec<(Size, GOp, GOp)> = vec![];
     for r in 1..=3usize {
@@ -325,8 +377,11 @@ fn gen_exhaustive(g: &mut Gen) {
             let s0 = Size { r, c };
             let mut counter = 50u64;
             // length 1
-            g.op(new_line(r, c));
+            let l = new_line(g, r, c);
+            g.op(l);
             g.count("exhaustive.case.len1");
+            g.op("scalar".to_string());
+            g.op("try_into_scalar".to_string());
             let a1 = alphabet(s0, &mut counter);
             for op in &a1 {
                 count_op(g, op, s0, "exh");
@@ -334,7 +389,8 @@ fn gen_exhaustive(g: &mut Gen) {
             }
             // length 2
             for op1 in &a1 {
-                g.op(new_line(r, c));
+                let l = new_line(g, r, c);
+                g.op(l);
                 g.count("exhaustive.case.len2");
                 g.op(op1.line());
                 let s1 = op1.after(s0);
@@ -361,7 +417,8 @@ fn gen_exhaustive(g: &mut Gen) {
     g.count_n("exhaustive.len3.prefixes_total", total as u64);
     for i in chosen {
         let (s0, op1, op2) = prefixes2[i].clone();
-        g.op(new_line(s0.r, s0.c));
+        let l = new_line(g, s0.r, s0.c);
+        g.op(l);
         g.count("exhaustive.case.len3");
         g.op(op1.line());
         let s1 = op1.after(s0);
@@ -485,8 +542,20 @@ fn random_op(g: &mut Gen, s: Size, counter: &mut u64) -> GOp {
         8 | 9 => GOp::Transpose,
         10 | 11 => GOp::TransposeMut,
         12 | 13 => GOp::Set(pick_index(g, s.r), pick_index(g, s.c), fresh(counter, 1)[0], g.rng.chance(1, 2)),
-        14 => GOp::MapMut(g.rng.range(1, 5) as u64 * 1000),
-        _ => GOp::MapMutWithIndex(g.rng.range(1, 5) as u64 * 100),
+        14 => {
+            if g.rng.chance(1, 2) {
+                GOp::MapMut(g.rng.range(1, 5) as u64 * 1000)
+            } else {
+                GOp::Map(g.rng.range(1, 5) as u64 * 1000)
+            }
+        }
+        _ => {
+            if g.rng.chance(1, 2) {
+                GOp::MapMutWithIndex(g.rng.range(1, 5) as u64 * 100)
+            } else {
+                GOp::MapWithIndex(g.rng.range(1, 5) as u64 * 100)
+            }
+        }
     }
 }
 
@@ -495,8 +564,9 @@ fn gen_random(g: &mut Gen) {
     for _ in 0..cases {
         let r = g.rng.range(1, 4);
         let c = g.rng.range(1, 4);
-        let via = *g.rng.pick(&NEW_VIAS);
-        g.op(format!("@ new {}x{} via={}", r, c, via));
+        let k = if g.rng.chance(1, 2) { g.rng.below(3) } else { g.rng.below(64) };
+        let l = start_line(g, r, c, k);
+        g.op(l);
         let len = g.rng.range(1, 60);
         g.count(&format!("random.case.len<={}", ((len + 9) / 10) * 10));
         let mut s = Size { r, c };
@@ -510,6 +580,11 @@ fn gen_random(g: &mut Gen) {
             }
             if !op.valid(s) {
                 seen_invalid = true;
+            }
+            if g.rng.chance(1, 20) {
+                let q = if g.rng.chance(1, 2) { "scalar" } else { "try_into_scalar" };
+                g.op(q.to_string());
+                g.count("rnd.query.scalar_or_try_into_scalar");
             }
             if g.rng.chance(1, 6) {
                 g.op(format!("try {}", op.line()));
@@ -558,7 +633,55 @@ fn gen_constructors(g: &mut Gen) {
     }
 }
 
+/// Every public constructor with valid and invalid arguments (zero sizes, non-square diagonal
+/// sizes, element counts `usize` cannot represent, empty value lists), each followed by the
+/// scalar accessors and a short history on the matrix it returned.
+fn gen_constructor_table(g: &mut Gen) {
+    const MAX: &str = "18446744073709551615";
+    const TWO32: &str = "4294967296";
+    let mut lines: Vec<String> = vec![];
+    for vals in ["-", "7", "7,8", "7,8,9,10"] {
+        lines.push(format!("@ row {}", vals));
+        lines.push(format!("@ column {}", vals));
+        lines.push(format!("@ from_diagonal {}", vals));
+    }
+    for via in ["from_scalar", "unit"] {
+        lines.push(format!("@ scalar 42 via={}", via));
+    }
+    for (r, c) in [
+        ("0", "0"), ("0", "1"), ("1", "0"), ("1", "1"), ("1", "3"), ("3", "1"), ("2", "2"), ("2", "3"),
+        ("3", "3"), ("0", MAX), (MAX, "0"), (MAX, "2"), ("2", MAX), (MAX, MAX), (TWO32, TWO32),
+    ] {
+        lines.push(format!("@ empty {} {} 5", r, c));
+        lines.push(format!("@ diagonal {} {} 7", r, c));
+        // from_fn walks the index space before it can fail: only sizes that are rejected up
+        // front (overflow) or empty, or small
+        if !(r == MAX && c == "0") {
+            lines.push(format!("@ new {}x{} via=from_fn", r, c));
+        }
+        lines.push(format!("@ flat {} {} -", r, c));
+        lines.push(format!("@ flat {} {} 1,2,3,4,5,6", r, c));
+    }
+    for l in lines {
+        let name = l.split_whitespace().nth(1).unwrap().to_string();
+        g.count(&format!("constructor.table.{}", name));
+        g.op(l);
+        g.op("scalar".to_string());
+        g.op("try_into_scalar".to_string());
+        let mut counter = 50u64;
+        // the generator does not know whether the constructor succeeded; operations chosen for
+        // a nominal 2x2 size are valid, invalid or answered `no-matrix` accordingly
+        let mut s = Size { r: 2, c: 2 };
+        for _ in 0..6 {
+            let op = random_op(g, s, &mut counter);
+            g.op(op.line());
+            s = op.after(s);
+        }
+    }
+}
+
 pub fn gen(g: &mut Gen) {
+    gen_constructor_table(g);
     gen_constructors(g);
     gen_exhaustive(g);
     gen_random(g);
@@ -592,13 +715,20 @@ fn storage_len(m: &Matrix<u64>) -> usize {
 /// size, every element through `get`, both copying iterators; `## len=`
 fn observe(m: &Matrix<u64>) -> (String, usize) {
     let (rows, cols) = m.size();
+    // `rows()` / `columns()` must agree with `size()`
+    let size_ok = m.rows() == rows && m.columns() == cols;
     let len = storage_len(m);
     let mut row_strs = vec![];
     for r in 0..rows {
         let mut cells = vec![];
         for c in 0..cols {
             cells.push(match catch(|| m.get(r, c)) {
-                Ok(v) => v.to_string(),
+                // `get_reference` must give the same element as `get`
+                Ok(v) => match catch(|| *m.get_reference(r, c)) {
+                    Ok(w) if w == v => v.to_string(),
+                    Ok(w) => format!("!get={}/get_reference={}", v, w),
+                    Err(k) => format!("!get_reference-{}", k.as_str()),
+                },
                 Err(k) => format!("!{}", k.as_str()),
             });
         }
@@ -624,7 +754,15 @@ fn observe(m: &Matrix<u64>) -> (String, usize) {
         }
     };
     (
-        format!("{}x{} {} rm={} cm={}", rows, cols, row_strs.join(";"), iter_str(true), iter_str(false)),
+        format!(
+            "{}x{}{} {} rm={} cm={}",
+            rows,
+            cols,
+            if size_ok { "" } else { "!rows()/columns()-disagree" },
+            row_strs.join(";"),
+            iter_str(true),
+            iter_str(false)
+        ),
         len,
     )
 }
@@ -647,8 +785,14 @@ pub(crate) fn apply(m: &mut Matrix<u64>, toks: &[&str]) -> Option<Result<(), Pan
             catch(|| m.insert_row(p, v))
         }
         "insert_row_with" => {
+            // the iterator parameter is generic: an owning vec iterator, a cloning slice
+            // iterator, and a lazily mapped range that could go on beyond the values needed
             let (p, vs) = (us(1), parse_vals(toks[2]));
-            catch(|| m.insert_row_with(p, vs.into_iter()))
+            match vs.len() % 3 {
+                0 => catch(|| m.insert_row_with(p, vs.into_iter())),
+                1 => catch(|| m.insert_row_with(p, vs.iter().cloned())),
+                _ => catch(|| m.insert_row_with(p, (0..vs.len()).map(|i| vs[i]))),
+            }
         }
         "insert_column" => {
             let (p, v) = (us(1), val(2));
@@ -656,7 +800,11 @@ pub(crate) fn apply(m: &mut Matrix<u64>, toks: &[&str]) -> Option<Result<(), Pan
         }
         "insert_column_with" => {
             let (p, vs) = (us(1), parse_vals(toks[2]));
-            catch(|| m.insert_column_with(p, vs.into_iter()))
+            match vs.len() % 3 {
+                0 => catch(|| m.insert_column_with(p, (0..vs.len()).map(|i| vs[i]))),
+                1 => catch(|| m.insert_column_with(p, vs.into_iter())),
+                _ => catch(|| m.insert_column_with(p, vs.iter().cloned())),
+            }
         }
         "remove_row" => {
             let p = us(1);
@@ -671,10 +819,10 @@ pub(crate) fn apply(m: &mut Matrix<u64>, toks: &[&str]) -> Option<Result<(), Pan
             let cs = parse_slice(opt_arg("cols", toks).expect("cols="));
             if toks[0] == "retain_mut" {
                 // both builder orders
-                let slice = if rs.show().len() % 2 == 0 {
-                    Slice2D::new().rows(rs.build()).columns(cs.build())
-                } else {
-                    Slice2D::new().columns(cs.build()).rows(rs.build())
+                let slice = match (rs.show().len() + cs.show().len()) % 3 {
+                    0 => Slice2D::new().rows(rs.build()).columns(cs.build()),
+                    1 => Slice2D::new().columns(cs.build()).rows(rs.build()),
+                    _ => slices::new().rows(rs.build()).columns(cs.build()),
                 };
                 catch(|| m.retain_mut(slice))
             } else {
@@ -713,6 +861,26 @@ pub(crate) fn apply(m: &mut Matrix<u64>, toks: &[&str]) -> Option<Result<(), Pan
         "map_mut_with_index" => {
             let k = val(1);
             catch(|| m.map_mut_with_index(|x, i, j| x + k * (i as u64 + 1) + j as u64))
+        }
+        "map" => {
+            let k = val(1);
+            match catch(|| m.map(|x| x + k)) {
+                Ok(r) => {
+                    *m = r;
+                    Ok(())
+                }
+                Err(e) => Err(e),
+            }
+        }
+        "map_with_index" => {
+            let k = val(1);
+            match catch(|| m.map_with_index(|x, i, j| x + k * (i as u64 + 1) + j as u64)) {
+                Ok(r) => {
+                    *m = r;
+                    Ok(())
+                }
+                Err(e) => Err(e),
+            }
         }
         _ => return None,
     })
@@ -775,6 +943,41 @@ impl Runner {
                     let vals = parse_vals(toks[4]);
                     self.construct(catch(|| Matrix::from_flat_row_major((r, c), vals)))
                 }
+                "row" => {
+                    let vals = parse_vals(toks[2]);
+                    self.construct(catch(|| Matrix::row(vals)))
+                }
+                "column" => {
+                    let vals = parse_vals(toks[2]);
+                    self.construct(catch(|| Matrix::column(vals)))
+                }
+                "scalar" => {
+                    let v: u64 = toks[2].parse().unwrap();
+                    if opt_arg("via", toks) == Some("unit") {
+                        #[allow(deprecated)]
+                        self.construct(catch(|| Matrix::unit(v)))
+                    } else {
+                        self.construct(catch(|| Matrix::from_scalar(v)))
+                    }
+                }
+                "empty" => {
+                    let (r, c): (usize, usize) = (toks[2].parse().unwrap(), toks[3].parse().unwrap());
+                    let v: u64 = toks[4].parse().unwrap();
+                    self.construct(catch(|| Matrix::empty(v, (r, c))))
+                }
+                "diagonal" => {
+                    let (r, c): (usize, usize) = (toks[2].parse().unwrap(), toks[3].parse().unwrap());
+                    let v: u64 = toks[4].parse().unwrap();
+                    // `diagonal` / `from_diagonal` need `T: Numeric` (a zero), which `u64` is not:
+                    // they are built over `i64`; `map` (checked by its own operation, and
+                    // panicking on an inconsistent storage) carries the result over to `u64`
+                    self.construct(catch(|| Matrix::diagonal(v as i64, (r, c)).map(|x| x as u64)))
+                }
+                "from_diagonal" => {
+                    let vals = parse_vals(toks[2]);
+                    let vals: Vec<i64> = vals.into_iter().map(|x| x as i64).collect();
+                    self.construct(catch(|| Matrix::from_diagonal(vals).map(|x| x as u64)))
+                }
                 _ => "bad-op".into(),
             };
         }
@@ -782,6 +985,22 @@ impl Runner {
             Some(m) => m,
             None => return "no-matrix".into(),
         };
+        if toks[0] == "scalar" && toks.len() == 1 {
+            return match catch(|| m.scalar()) {
+                Ok(v) => format!("val={}", v),
+                Err(k) => format!("panic ## kind={}", k.as_str()),
+            };
+        }
+        if toks[0] == "try_into_scalar" {
+            return match catch(|| m.clone()) {
+                Ok(copy) => match catch(|| copy.try_into_scalar()) {
+                    Ok(Ok(v)) => format!("ok({})", v),
+                    Ok(Err(_)) => "err".to_string(),
+                    Err(k) => format!("panic ## kind={}", k.as_str()),
+                },
+                Err(k) => format!("clone-panicked {}", k.as_str()),
+            };
+        }
         if toks[0] == "try" {
             // the operation on a clone: the matrix itself is left as it is (a matrix whose
             // invariant is already broken cannot be cloned; that state was reported earlier)
